@@ -172,7 +172,15 @@ func init() {
 				}
 				return false, nil
 			}
-			return len(data) > 0 && int(data[len(data)-1]) == ((k%256)+256)%256, nil
+			want := ((k % 256) + 256) % 256
+			if kind == 5 {
+				return len(data) > 0 && int(data[len(data)-1]) == want, nil
+			}
+			sum := 0
+			for _, c := range data {
+				sum += int(c)
+			}
+			return sum%256 == want, nil
 		}
 		acc := packet.NewAccumulator(pred)
 		outs := []Val{}
